@@ -64,6 +64,14 @@ func fieldOfSrc(src string) (string, string) {
 }
 
 func runC05(w *World, r *Report) {
+	r.Rule("stepspec", "a list decoder whose advance the wire format fixes (hello elements: next multiple of 8) advances by exactly that", 1)
+	stepSpecRule(w, r, "stepspec")
+	r.Rule("shiftwidth", "no shift by a constant count that is as large as its operand's type (the value would always be 0: bits lost before widening)", 1)
+	shiftWidthRule(w, r, "shiftwidth", func(fi *FuncInfo) bool { return fi.Pkg.Types.Name() == "openflow13" || fi.Pkg.Types.Name() == "common" })
+	r.Rule("shadow", "no := in an inner scope re-declares a same-typed variable of the function that is read afterwards (or a named result): the value computed there would be lost", 1)
+	shadowRule(w, r, "shadow", func(fi *FuncInfo) bool { return fi.Pkg.Types.Name() == "openflow13" || fi.Pkg.Types.Name() == "common" })
+	r.Rule("typednil-var", "a pointer result that can be a bare nil is not assigned to an interface-typed variable (a typed nil passes == nil tests the wrong way)", 1)
+	typedNilVarRule(w, r, "typednil-var", func(fi *FuncInfo) bool { return fi.Pkg.Types.Name() == "openflow13" || fi.Pkg.Types.Name() == "common" })
 	r.Rule("tailguard", "a decoder that keeps the rest of its input from some offset admits every input that has a byte there", 1)
 	tailGuardRule(w, r, "tailguard", func(k *Kind) bool {
 		return strings.HasPrefix(k.Name, "openflow13.") || strings.HasPrefix(k.Name, "common.")
